@@ -90,3 +90,29 @@ func c02R9(c *Ctx) {
 func c02R8(c *Ctx) {
 	shareRule(c, "C14.R1", "C02.R8", c14R1, "the run path writes nothing into the prepared workflow or the prepared step objects shared by all runs: a deploy configuration (or any other evaluated input) cached there by one run would be used by the next run instead of the value the engine evaluated for it")
 }
+
+// C06: a cancelled run must come back: closing steps take locks and call handlers like any other path.
+func c06R9(c *Ctx) {
+	shareRule(c, "C01.R3", "C06.R9", c01R3, "no handler callback is made with a step lock held, the lock order is run lock -> step lock only, and nobody closes or waits under a lock: a step that reports `closed early` while holding its own lock deadlocks with the run loop reading its state, and the cancelled run never returns")
+}
+
+// C16: preparing the same text twice gives the same result only if nothing is remembered between preparations.
+func c16R5(c *Ctx) {
+	shareRule(c, "C10.R5", "C16.R5", c10R5, "the parse/prepare paths write no engine-lifetime object and no package-level variable: repeated preparation of the same text cannot differ because of what an earlier preparation left behind")
+}
+
+// C19: the loop step receives its items as values taken from the parent run's data model (often straight from $.input):
+// it must hand COPIES that it validated to the sub-runs and never write into the list it was given.
+func c19R4(c *Ctx) {
+	shareRule(c, "C13.R4", "C19.R4", c13R4, "the loop step validates every item and hands over a list of its own (the validated items, in order) — it does not store into the list it received, which is part of the parent run's data model: every other step keeps seeing the input as the parent's schema normalised it")
+}
+
+// C13: a queued item that never got a slot must be able to leave when the step is closed.
+func c13R6(c *Ctx) {
+	shareRule(c, "C06.R1", "C13.R6", c06R1, "every blocking channel operation of the run path — the semaphore acquisition and its deferred release in the item goroutines in particular — has a context/timer case or cannot block: an item that gave up queueing because the step was closed never took a slot, so a release that waits unconditionally blocks for ever and the loop never reports")
+}
+
+// C01 / C05: a goroutine that waits for itself never ends, so the run that has to close the step never returns.
+func c01R10(c *Ctx) {
+	shareRule(c, "C12.R14", "C01.R10", c12R14, "no goroutine that is counted in a step's WaitGroup waits on that group (e.g. by calling the step's public ForceClose from the step goroutine): it would block for ever, and with it terminateAllSteps and Execute")
+}
